@@ -6,3 +6,13 @@ import "time"
 
 // VerifSetNow replaces the aggregator's clock (the `now` field is unexported).
 func (a *MetricAggregator) VerifSetNow(now func() time.Time) { a.now = now }
+
+// VerifStandaloneAggregator returns an aggregator made the way the server makes them for its workers: through
+// createStandaloneSink and the (unexported) aggregator factory, from the Server's own fields.
+func (s *Server) VerifStandaloneAggregator() (*MetricAggregator, error) {
+	h, _, err := s.createStandaloneSink()
+	if err != nil {
+		return nil, err
+	}
+	return h.(*BackendHandler).workers[0].aggr.(*MetricAggregator), nil
+}
